@@ -100,19 +100,36 @@ func evalAtom(s *an.PathState, a an.Atom) (known, val bool) {
 
 // deferredClosureCalls returns the calls a deferred closure certainly performs when it runs at this exit:
 // the calls common to all closure paths that are not refuted by the creator's facts.
-func deferredClosureCalls(s *an.PathState, ev an.Event) (must []an.Event, decided bool) {
+// deferredBody: the function a deferred call runs and what its free variables / parameters stand for: a closure
+// (captured variables bound where it was created) or a module function called with arguments evaluated at the defer.
+func deferredBody(s *an.PathState, ev an.Event) (*ssa.Function, map[string]*an.Term, bool) {
 	ci, ok := ev.In.(ssa.CallInstruction)
 	if !ok {
-		return nil, false
+		return nil, nil, false
 	}
-	mc, ok := ci.Common().Value.(*ssa.MakeClosure)
+	fv := map[string]*an.Term{}
+	if mc, ok := ci.Common().Value.(*ssa.MakeClosure); ok {
+		cf := mc.Fn.(*ssa.Function)
+		for i, b := range mc.Bindings {
+			fv[cf.FreeVars[i].Name()] = s.T(b)
+		}
+		return cf, fv, true
+	}
+	if g := ci.Common().StaticCallee(); g != nil && an.CurProg() != nil && an.CurProg().InRepo(g) && len(g.Blocks) > 0 && g.Signature.Recv() == nil {
+		for i, prm := range g.Params {
+			if i < len(ev.Args) {
+				fv["p:"+prm.Name()] = ev.Args[i]
+			}
+		}
+		return g, fv, true
+	}
+	return nil, nil, false
+}
+
+func deferredClosureCalls(s *an.PathState, ev an.Event) (must []an.Event, decided bool) {
+	cf, fv, ok := deferredBody(s, ev)
 	if !ok {
 		return nil, false
-	}
-	cf := mc.Fn.(*ssa.Function)
-	fv := map[string]*an.Term{}
-	for i, b := range mc.Bindings {
-		fv[cf.FreeVars[i].Name()] = s.T(b)
 	}
 	snap := ev.AtExit
 	if snap == nil {
@@ -181,12 +198,10 @@ func expandedEvents(s *an.PathState) []an.Event {
 	var out []an.Event
 	for _, e := range s.Events {
 		if e.Kind == "call" && e.Deferred {
-			if ci, ok := e.In.(ssa.CallInstruction); ok {
-				if _, isClosure := ci.Common().Value.(*ssa.MakeClosure); isClosure {
-					if must, ok := deferredClosureCalls(s, e); ok {
-						out = append(out, must...)
-						continue
-					}
+			if _, _, isBody := deferredBody(s, e); isBody {
+				if must, ok := deferredClosureCalls(s, e); ok {
+					out = append(out, must...)
+					continue
 				}
 			}
 		}
